@@ -169,6 +169,17 @@ def main():
     out.append(']')
     out.append(f'def reg8Panics : Nat := {sum(1 for r in regs if r[2] == "PANIC")}')
     out.append('')
+    # depth limits (static scan of the constants)
+    def const(path, name):
+        m = re.search(r'const\s+%s\s*:\s*\w+\s*=\s*(\d+)\s*;' % name, open(os.path.join(REPO, path)).read())
+        if not m:
+            raise SystemExit(f'gen: constant {name} not found in {path}')
+        return int(m.group(1))
+    out.append('')
+    out.append('/-- MAX_SYMBOL_DEPTH (expr.rs), MAX_MACRO_DEPTH (builder/pass0.rs), MAX_INCLUDE_DEPTH (parser.rs) -/')
+    out.append(f'def maxSymbolDepth : Nat := {const("src/expr.rs", "MAX_SYMBOL_DEPTH")}')
+    out.append(f'def maxMacroDepth : Nat := {const("src/builder/pass0.rs", "MAX_MACRO_DEPTH")}')
+    out.append(f'def maxIncludeDepth : Nat := {const("src/parser.rs", "MAX_INCLUDE_DEPTH")}')
     out.append('end Avra.Gen')
     write_if_changed(os.path.join(GEN, 'Tables.lean'), '\n'.join(out) + '\n')
 
